@@ -508,7 +508,7 @@ class TokenEncoder:
                 raise pending_error
             stropped = self._encoding_failure_handler(self, stropped, token_type, pending_error)
 
-        return stropped
+        return self._reverified(stropped, token_type_lower)
 
     # +----------------------------------------------------------------------------------------------------------------+
     # | Language CONFIGURATION HELPERS
@@ -704,3 +704,16 @@ class TokenEncoder:
         map_of_list_of_patterns["any"] = any_patterns
 
         return map_of_list_of_patterns
+
+    def _reverified(self, stropped: str, token_type_lower: str) -> str:
+        """
+        The result of a stropping or encoding failure handler is not trusted: the token :meth:`strop` is about to
+        return has to pass the same checks a token has to pass when no handler is installed. When no handler was
+        invoked this repeats checks that already passed.
+
+        :raises RuntimeError: if the token matches a reserved pattern, is a reserved identifier, or still needs encoding.
+        """
+        self._do_for_type_and_all(self._strop_by_pattern, stropped, token_type_lower, True)
+        self._do_for_type_and_all(self._strop_by_keyword, stropped, token_type_lower, True)
+        self._do_for_type_and_all(self._encode, stropped, token_type_lower, True)
+        return stropped
